@@ -147,6 +147,20 @@ class C10(Check):
                     n0 = len(sim.calls)
                     tag = None
                     try:
+                        if op == "set" and case.get("inherit") and idx % 3 == 0:
+                            # an object of the BASE structure (fewer members, a shorter buffer) is offered as the value: it must be
+                            # refused before any system call - never handed to the kernel
+                            kb = case["inherit"]
+                            try:
+                                e.table[mk(Key, k, "k")] = mk(VBase, v[:kb], "v")
+                                refused = False
+                            except (AssertionError, TypeError, ValueError):
+                                refused = True
+                            if not refused and len(sim.calls) > n0:
+                                sim.overruns.append(("update", "value of the base structure accepted", V, sum(SZ[f] for f in case["value"][:kb])))
+                            results.append((op, "ok"))
+                            tags += [("DictSet", K, V)] * (len(sim.calls) - n0)
+                            continue
                         if op == "set":
                             e.table[mk(Key, k, "k")] = mk(Value, v, "v")
                             tag = ("DictSet", K, V)
